@@ -1,5 +1,6 @@
 import OFCore.Props.C01
 import OFCore.Lemmas.EngineSys
+import OFCore.Lemmas.EngineMarkAll
 /-!
 # C02 — what was calculated before never corrupts what is calculated or kept next
 
@@ -16,7 +17,9 @@ the pure, context-free meaning; everything marked is purged when the top-level r
 The full statement "every retained value is reproducible" is FALSE of the code (open finding
 F-C02b: frames above the earlier occurrence of the spiralling variable keep a tainted value);
 `C02_retained_tainted_counterexample` exhibits it in the model, the corpus of the check replays
-it on the implementation.
+it on the implementation.  `C02_whole_stack_marking_retains_only_meanings` proves the full
+statement for the what-if machine that marks the WHOLE stack at a spiral (`Sys.markAll`, the
+repair that was tried and not landed): F-C02b is the only obstacle.
 -/
 set_option linter.unusedSectionVars false
 namespace OFCore
@@ -145,5 +148,29 @@ theorem C02_retained_tainted_counterexample :
   refine ⟨⟨[((1, 4), ([25], true))], [], []⟩, ?_, ?_, ?_, ?_⟩
   · simp [request, run, runE, spiralSys, lookup, store, markSpiral, purge, St.init, Sys.slot]
   all_goals simp [den, denE, spiralSys, lookup]
+
+/-- What-if (candidate repair of F-C02b, `Sys.markAll = true`: a spiral marks every frame on the
+    stack): for ALL rule systems, any spiral limit and any sequence of top-level requests,
+    successful or not, NO retained entry is tainted, and every retained value is the meaning of
+    its node — what a fresh simulation with these inputs computes for it when no spiral
+    interferes.  This is the full retained-value clause of C02; the code (`markAll = false`)
+    fails it, see the counterexample above. -/
+theorem C02_whole_stack_marking_retains_only_meanings (sys : Sys P) (hk : SlotCoherent sys)
+    (hm : sys.markAll = true) (n : Nat) (ks : List (Node P)) (rs : List Res) (s' : St P)
+    (h : requests sys n St.init ks = some (rs, s')) :
+    ∀ v p x g, lookup s'.cache (sys.slot (v, p)) = some (x, g) →
+      g = false ∧ ∃ m, den sys m v p = some (.ok x) := by
+  intro v p x g hl
+  have hg : g = false := requests_no_taint sys hm n ks St.init rs s'
+    (fun j y g' hj => by simp [St.init, lookup] at hj) rfl rfl h _ x g hl
+  subst hg
+  exact ⟨rfl, C02_untainted_is_meaning sys hk n ks rs s' h v p x hl⟩
+
+/-- the same rule system under the what-if machine: the request of the counterexample returns the
+    same (spiral-affected) value but RETAINS nothing derived from the substituted default -/
+example : ∃ s', request { spiralSys with markAll := true } 10 St.init (1, 4) = some (.ok [25], true, s') ∧
+    lookup s'.cache (1, 4) = none ∧ lookup s'.cache (0, 4) = none := by
+  refine ⟨⟨[], [], []⟩, ?_, rfl, rfl⟩
+  simp [request, run, runE, spiralSys, lookup, store, markSpiral, purge, St.init, Sys.slot]
 
 end OFCore
